@@ -82,6 +82,8 @@ def build_registry(mods):
     reg.models[common.forall_range] = _models.q_forall
     reg.models[common.exists_range] = _models.q_exists
     reg.models[common.is_opaque] = _models.m_is_opaque
+    from . import charclass as _charclass
+    reg.models[common.all_chars] = _charclass.m_all_chars
     reg.models[common.sum_prefix] = _models.q_sum_prefix
     reg.models[common.count_prefix] = _models.q_count_prefix
     reg.models[common.nat_of_str] = _models.q_nat_of_str
